@@ -128,6 +128,8 @@ static unsigned char *mutate(const unsigned char *in, long n, long *outn, const 
 		long cut = n > 0 ? (vrng_chance(50) ? vrng_below(n < 4096 ? n : 4096) : vrng_below(n)) : 0;
 		if (vrng_chance(20) && n > 8)
 			cut = n - vrng_range(1, 8);
+		else if (vrng_chance(30) && n > 0)
+			cut = vrng_below(n < 160 ? n : 160);	/* inside the signature / fixed header */
 		sprintf(desc, "truncate %ld/%ld", cut, n);
 		*outn = cut;
 		break; }
@@ -389,6 +391,7 @@ int main(int argc, char **argv)
 		long n = 0, on = 0, mn;
 		char desc[128];
 		int entry, is_test, ret = 0, frames;
+		unsigned char *exact_buf = NULL;
 		xmp_context c;
 		double t0;
 		struct xmp_test_info ti;
@@ -458,9 +461,13 @@ int main(int argc, char **argv)
 			sink += ftell(f);
 			fclose(f);
 			break; }
-		case 2:
-			ret = is_test ? xmp_test_module_from_memory(mut, mn, &ti) : xmp_load_module_from_memory(c, mut, mn);
-			break;
+		case 2: {
+			/* exactly mn bytes: a read one byte past the image must hit the redzone */
+			unsigned char *exact = (unsigned char *)malloc(mn > 0 ? mn : 1);
+			memcpy(exact, mut, mn > 0 ? mn : 0);
+			ret = is_test ? xmp_test_module_from_memory(exact, mn, &ti) : xmp_load_module_from_memory(c, exact, mn);
+			exact_buf = exact;
+			break; }
 		default: {
 			struct cbs s;
 			struct xmp_callbacks cb;
@@ -505,6 +512,8 @@ int main(int argc, char **argv)
 			reuse = NULL;
 		}
 		free(mut);
+		free(exact_buf);
+		exact_buf = NULL;
 		free(in);
 		free(oin);
 	}
